@@ -96,10 +96,12 @@ def preflush_domain(spec, pre):
         pv = sim.eval_pars(state0, 0)
     except Exception:
         return
-    for pop, j in started:
-        outs = [l for l in spec["links"] if l[0] == j]
-        if any(l[2] == ">" for l in outs):
-            continue
-        s = sum(max(float(pv[pop][p]), 0.0) for l in outs for p in l[2])
-        if not (s > 0):
-            raise Discard("plain junction initialised with people while its proportions (pre-flush) sum to <= 0")
+    # push the contents down the junction DAG by the documented rule; a plain junction that holds or receives people while its
+    # (pre-flush) proportions sum to <= 0 yields NaN in the reference as well: ill-posed
+    import numpy as np
+
+    sim.flush(state0, pv)
+    for pop, d in state0.items():
+        for c, v in d.items():
+            if not np.all(np.isfinite(np.asarray(v, dtype=float))):
+                raise Discard("plain junction holds or receives people in the initial flush while its proportions (pre-flush) sum to <= 0")
